@@ -50,14 +50,14 @@ def run(ctx):
     for e in table:
         e["_fn"] = re.compile(e["fn"])
         e["_kind"] = re.compile(e["kind"])
-        e["_n"] = 0
+        e["_n"] = e["_s"] = 0
     total = auto = tabled = 0
     per_class = {}
     for b in prog.bodies:
         if b.key not in reach or b.name == "fmt":
             continue
         spec = SPECIALISED.get(b.key)
-        for bb, t, kind, status, detail in panics.audit_body(prog, b, env=spec):
+        for bb, t, kind, status, detail, own_slot in panics.audit_body(prog, b, env=spec, with_slots=True):
             total += 1
             what = t.ckey if t.t == "call" else "%s %s" % (t.akind, t.aop or "")
             if spec is not None and status == "open":
@@ -73,15 +73,18 @@ def run(ctx):
                 ctx.ok("C06-a", "%s:%s:%s" % (b.key, kind, pa.short(what) if t.t == "call" else what.strip()), "guard: " + detail, b.loc(t))
                 continue
             hit = [e for e in table if e["_fn"].search(b.key) and e["_kind"].search(kind)]
-            if len(hit) == 1 and hit[0]["_n"] < hit[0]["max"]:
+            if len(hit) == 1:
+                # (a site that is the alternative of a counted one - same kind and callee, never on the same path - shares its slot)
                 hit[0]["_n"] += 1
+                hit[0]["_s"] += 1 if own_slot else 0
+            if len(hit) == 1 and (hit[0]["_n"] <= hit[0]["max"] or hit[0]["_s"] <= hit[0].get("slots", hit[0]["max"])):
                 tabled += 1
                 per_class[hit[0]["class"]] = per_class.get(hit[0]["class"], 0) + 1
                 ctx.ok("C06-a", "%s:%s:%s" % (b.key, kind, pa.short(what) if t.t == "call" else what.strip()),
                        "audited (%s): %s" % (hit[0]["class"], hit[0]["reason"][:160]), b.loc(t))
                 continue
             why = ("matches %d table entries" % len(hit)) if len(hit) != 1 else \
-                "exceeds the %d sites audited for `%s` / `%s`" % (hit[0]["max"], hit[0]["fn"][:50], hit[0]["kind"])
+                "exceeds the %d sites (%d on one path) audited for `%s` / `%s`" % (hit[0]["max"], hit[0].get("slots", hit[0]["max"]), hit[0]["fn"][:50], hit[0]["kind"])
             ctx.violation("C06-a", b.key, "%s %s" % (kind, (pa.short(what) if t.t == "call" else what.strip())),
                           "panic site not discharged by a dominating guard and not in the audited table (%s): `%s` in %s can panic for some "
                           "operand values; on a receive path this lets the peer crash the endpoint (status on the explored paths: %s)"
@@ -174,7 +177,7 @@ def run(ctx):
                 tk = [t for t in p.tests if pa.head_call(t[3])[0] and pa.head_call(t[3])[0].endswith("take_chunk")]
                 ci_ = [i for i, e in enumerate(p.events) if e[0] == "call" and e[2].is_call("h3::frame::FrameStream::try_recv", "take_chunk")]
                 order_ok = [p.events[i][2].cname for i in ci_][-2:] == ["try_recv", "take_chunk"]      # the buffer is consulted AFTER the read that filled it
-                if order_ok and [t[2] for t in tr][:2] == ["Ready", "Ok"] and tr[-1][2] == "false" and tk and tk[-1][2] == "None":
+                if order_ok and sorted(p.outcomes("h3::frame::FrameStream::try_recv")) == ["Ok", "Ready"] and tr and tr[-1][2] == "false" and tk and tk[-1][2] == "None":
                     desc = "try_recv=Ready(Ok(false)) & take_chunk=None"
             if desc and (b.key, desc) in A7_EXCEPTIONS:
                 ctx.ok("C06-b", "%s:%s" % (b.key, desc), "excepted: " + A7_EXCEPTIONS[(b.key, desc)])
